@@ -976,3 +976,68 @@ pub fn t9() -> BoxedStrategy<Value> {
         })
         .boxed()
 }
+
+/// T10: a long disposal. A.edge0 -> chain of L nodes, A.edge1 -> B, B also in root1. The collector
+/// D destructs A and walks the chain (re-pinning every 128 nodes); in between a peer advances the
+/// epoch; a reader then pins, loads B from root1 and unlinks it; D comes back to A's frame and
+/// releases A.edge1.
+pub fn t10() -> BoxedStrategy<Value> {
+    (
+        0u8..48,
+        (140u8..230, 0u32..1400, 0u32..1400, 0u32..1400, 0u32..1400),
+        (0u8..3, 0u8..3, 0u8..3, 0u8..3, any::<bool>(), 0u8..6),
+    )
+        .prop_map(|(align, (half, s1, s2, s3, s4), (p1, p2, p3, p4, reader_upgrades, settle))| {
+            let (d, m, p) = (0usize, 1usize, 2usize);
+            let mut t = TB::new(3);
+            t.new_node(d, "B", None, None, 3, 63);
+            t.downgrade(d, "B", "wB");
+            t.new_chain(d, "C", half);
+            t.new_node(d, "A", Some("C"), Some("B"), 3, 0);
+            t.drop_rc(d, "C");
+            t.pin(d);
+            t.store(d, C::Root(1), Some("B"), 0);
+            t.wstore(d, WC::Root(0), Some("wB"), 0);
+            t.unpin(d, 0);
+            t.advance(d, settle);
+            t.drop_rc(d, "A");
+            t.run(d);
+            // D collects: A's destruction runs inside this op; D is parked repeatedly while it
+            // walks the chain and the peer advances the epoch in between
+            t.advance(d, 7);
+            t.until_steps(d, 60 + s1);
+            t.advance(p, p1);
+            t.run(p);
+            t.until_steps(d, s2);
+            t.advance(p, p2);
+            t.run(p);
+            t.until_steps(d, s3);
+            t.advance(p, p3);
+            t.run(p);
+            t.until_steps(d, s4);
+            t.advance(p, p4);
+            t.run(p);
+            // the reader
+            t.pin(m);
+            if reader_upgrades {
+                t.wload(m, WC::Root(0), 0, "ws");
+                t.wupgrade(m, "ws", true, "sB");
+            } else {
+                t.load(m, C::Root(1), 0, "sB");
+            }
+            t.swap_null(m, C::Root(1), "Bm");
+            t.drop_rc(m, "Bm");
+            t.run(m);
+            t.until_end(d);
+            t.deref_s(m, "sB");
+            t.counted(m, "sB", "Bc");
+            t.deref(m, "Bc");
+            t.unpin(m, 0);
+            t.drop_rc(m, "Bc");
+            t.run(m);
+            t.advance(p, 5);
+            t.run(p);
+            t.finish(align, "T10")
+        })
+        .boxed()
+}
